@@ -66,7 +66,8 @@ type exporter struct {
 	msgAttNames  map[string]bool
 	sigAttNames  map[string]bool
 
-	sigEnums map[EntityID]*SignalEnum
+	sigEnums     map[EntityID]*SignalEnum
+	sigEnumOrder []*SignalEnum
 }
 
 func newExporter() *exporter {
@@ -260,7 +261,7 @@ func (e *exporter) exportBus(bus *Bus) *dbc.File {
 
 	e.exportNodeInterfaces(bus.NodeInterfaces())
 
-	for _, sigEnum := range e.sigEnums {
+	for _, sigEnum := range e.sigEnumOrder {
 		e.exportSignalEnum(sigEnum)
 	}
 
@@ -470,7 +471,7 @@ func (e *exporter) exportEnumSignal(enumSig *EnumSignal, dbcMsgID uint32, dbcSig
 	dbcValEnc.Values = e.getDBCValueDescription(enumSig.enum.Values())
 
 	e.dbcFile.ValueEncodings = append(e.dbcFile.ValueEncodings, dbcValEnc)
-	e.sigEnums[enumSig.enum.entityID] = enumSig.enum
+	addOrderedRef(e.sigEnums, &e.sigEnumOrder, enumSig.enum.entityID, enumSig.enum)
 }
 
 func (e *exporter) getDBCValueDescription(enumValues []*SignalEnumValue) []*dbc.ValueDescription {
